@@ -33,6 +33,8 @@ type Engine struct {
 	strByRegion map[uint32]string
 	quants      map[*Term]*quantMark
 	frozenRes   map[*ssa.Global]string
+	pureMemo    map[*ssa.Function]bool
+	pendingWF   []*Term
 	TypeInvs    []*TypeInv
 	NonNil      map[string]bool
 	Frozen      map[string]bool
@@ -217,7 +219,15 @@ func (e *Engine) obligID(fr *frame, kind, detail string) string {
 	return id
 }
 
+func (e *Engine) flushWF(st *State) {
+	for _, t := range e.pendingWF {
+		st.assume(t)
+	}
+	e.pendingWF = e.pendingWF[:0]
+}
+
 func (e *Engine) oblige(st *State, fr *frame, kind, detail string, goal *Term, pos token.Pos) {
+	e.flushWF(st)
 	if fr != nil && fr.dry != nil {
 		st.assume(goal)
 		return
